@@ -25,7 +25,7 @@ from symtorch import scalars as sc  # noqa: E402
 from symtorch import smt  # noqa: E402
 from symtorch import explore  # noqa: E402
 
-EVIDENCE_DIR = os.path.join(ROOT, "evidence")
+EVIDENCE_DIR = os.environ.get("VERIF_EVIDENCE_DIR") or os.path.join(ROOT, "evidence")  # (seeded-change runs redirect it so that evidence of a mutated tree is never committed)
 REPLAY_DIR = os.path.join(ROOT, "replays")
 KNOWN_FILE = os.path.join(ROOT, "known_findings.json")
 
@@ -316,6 +316,8 @@ class Report:
         self.violations = []  # reproduced, not known
         self.known = []  # reproduced, listed
         self.inconclusive = []
+        self.bughunt_undecided = []
+        self.bughunt_jobs = 0
         self.functions = {}
         self.bounds = {}
         self.assumptions = []
@@ -347,6 +349,10 @@ class Report:
                 self.violations.append(v)
         for i in jr.get("inconclusive", []):
             self.inconclusive.append(i)
+        for i in jr.get("bughunt_undecided", []):
+            self.bughunt_undecided.append(i.get("query", str(i))[:160])
+        if isinstance(jr.get("cfg"), dict) and (jr["cfg"].get("bughunt") or (isinstance(jr["cfg"].get("cfg"), dict) and jr["cfg"]["cfg"].get("bughunt"))):
+            self.bughunt_jobs += 1
         for s in jr.get("samples", []):
             if len(self.samples) < 12:
                 self.samples.append(s)
@@ -369,6 +375,7 @@ class Report:
             "traces_validated_against_impl": c["validated"],
             "stubs": self.stubs,
             "inconclusive": self.inconclusive[:20],
+            "bug_hunting_only": {"jobs": self.bughunt_jobs, "undecided_queries": len(self.bughunt_undecided), "which": self.bughunt_undecided[:30], "meaning": "configurations beyond the bound for which verdicts are claimed; a replayed sat is reported as a violation, undecided queries are listed here and claim nothing"},
             "known_findings_reported": [k.get("id") for k, _ in self.known],
             "samples": self.samples or ["(no samples recorded)"],
             "evaluations": c["queries"] + c["syntactic"],
@@ -431,6 +438,15 @@ def _run_job(args):
         jr = {"inconclusive": [{"job": str(cfg), "error": "%s: %s" % (type(e).__name__, e), "tb": traceback.format_exc()[-1500:]}]}
     jr.setdefault("cfg", cfg)
     jr["job_s"] = round(time.time() - t0, 2)
+    if isinstance(cfg, dict) and (cfg.get("bughunt") or (isinstance(cfg.get("cfg"), dict) and cfg["cfg"].get("bughunt"))):
+        # a configuration beyond the bound for which verdicts are claimed (e.g. three spline bins): run for bug hunting
+        # only - a `sat` that replays is still a VIOLATION, an undecided query (unknown / timeout) is counted apart and
+        # does not make the check inconclusive; nothing is claimed to hold for such a configuration
+        keep, apart = [], []
+        for i in jr.get("inconclusive", []):
+            (apart if i.get("status") in ("unknown", "timeout") else keep).append(i)
+        jr["inconclusive"] = keep
+        jr["bughunt_undecided"] = apart
     return jr
 
 
